@@ -532,6 +532,10 @@ class Dispatcher(actor.RallyActor):
     def receiveMsg_BenchmarkFailure(self, msg, sender):
         self.send(self.start_sender, msg)
 
+    def receiveMsg_ChildActorExited(self, msg, sender):
+        # the node mechanics are our children: let the actor that knows the engine's status decide whether this is a failure
+        self.send(self.start_sender, msg)
+
     def receiveMsg_PoisonMessage(self, msg, sender):
         self.send(self.start_sender, actor.BenchmarkFailure(msg.details))
 
